@@ -59,7 +59,7 @@ var xlateTargets = map[string][]string{
 		"encoderDict.Len", "encoderDict.Pos", "encoderDict.ByteAt", "iverson",
 		"decoder.decodeLiteral", "decoder.readOp", "encoder.writeLiteral", "encoder.writeMatch",
 	},
-	".": {"padLen", "readUvarint"},
+	".": {"padLen", "readUvarint", "readSizeInBlockHeader", "readRecord", "verifyFlags"},
 }
 
 type xfunc struct {
@@ -305,7 +305,7 @@ var leanKeywords = map[string]bool{"end": true, "at": true, "from": true, "open"
 	"where": true, "def": true, "theorem": true, "structure": true, "namespace": true, "section": true, "instance": true,
 	"class": true, "Type": true, "Prop": true, "Sort": true, "import": true, "export": true, "mutual": true, "private": true,
 	"protected": true, "return": true, "for": true, "unless": true, "try": true, "catch": true, "finally": true, "mut": true,
-	"using": true, "calc": true, "state": false, "fuel": true, "default": true}
+	"using": true, "calc": true, "rec": true, "macro": true, "syntax": true, "open_": false, "variable": true, "universe": true, "example": true, "abbrev": true, "inductive": true, "deriving": true, "extends": true, "this": true, "nomatch": true, "nofun": true, "suffices": true, "obtain": false, "set_option": true, "attribute": true, "noncomputable": true, "partial": true, "termination_by": true, "decreasing_by": true, "state": false, "fuel": true, "default": true}
 
 func leanIdent(s string) string {
 	if leanKeywords[s] || s == "_" {
